@@ -22,7 +22,11 @@ import (
 // Block-set generator shared by C29 and C33: tiny real blocks (1..3 series, 2..4 samples) so that a
 // whole compaction cycle takes a fraction of a second.
 
-func vfcrigGenSet(rng *rand.Rand, idx int) vfcrigSet {
+var vfcrigAllKinds = []string{"aligned", "replicas", "vertical-shifted", "multi-result", "tombstoned-block", "no-compact", "empty-block", "two-groups", "replicas-penalty"}
+
+func vfcrigGenSet(rng *rand.Rand, idx int) vfcrigSet { return vfcrigGenSetOf(rng, idx, vfcrigAllKinds) }
+
+func vfcrigGenSetOf(rng *rand.Rand, idx int, variants []string) vfcrigSet {
 	ext := map[string]string{"e": "1"}
 	set := vfcrigSet{Ranges: []int64{1000, 3000}}
 	if rng.Intn(3) == 0 {
@@ -45,7 +49,6 @@ func vfcrigGenSet(rng *rand.Rand, idx int) vfcrigSet {
 		k = 5
 	}
 	// variant is chosen round-robin so that every kind of pending work occurs in every run
-	variants := []string{"aligned", "replicas", "vertical-shifted", "multi-result", "no-compact", "empty-block", "two-groups", "replicas-penalty", "tombstoned-block"}
 	v := variants[idx%len(variants)]
 	set.Name = fmt.Sprintf("%s/k=%d/start=%d/ranges=%v", v, k, start, set.Ranges)
 	emptyAt := -1
